@@ -301,15 +301,20 @@ func (src *Source) PayloadSent() int64 {
 func (src *Source) DropReplicaAfter(n int64) {
 	src.mu.Lock()
 	defer src.mu.Unlock()
-	if len(src.replicas) == 0 {
-		src.armDrop = n
-		return
-	}
+	live := 0
 	for _, r := range src.replicas {
+		if r.dropNow || r.epoch != src.epoch {
+			continue // already on its way out (Reconfigure / DropReplicas)
+		}
+		live++
 		r.dropAt = r.sent + n
 		if n <= 0 {
 			r.dropNow = true
 		}
+	}
+	if live == 0 {
+		src.armDrop = n
+		return
 	}
 	src.broadcastLocked()
 }
